@@ -277,7 +277,8 @@ Theorem C16_arr_same_code :
   Gen_ArrSqrt.ShrinkTo = Gen_ArrCnst.ShrinkTo /\ Gen_ArrSqrt.ShrinkFit = Gen_ArrCnst.ShrinkFit /\
   Gen_ArrSqrt.AddBackCrt = Gen_ArrCnst.AddBackCrt /\ Gen_ArrSqrt.Clear = Gen_ArrCnst.Clear /\
   Gen_ArrSqrt.pvDecCount = Gen_ArrCnst.pvDecCount /\ Gen_ArrSqrt.pvIncCount = Gen_ArrCnst.pvIncCount /\
-  Gen_ArrSqrt.SetCountCrt = Gen_ArrCnst.SetCountCrt.
+  Gen_ArrSqrt.SetCountCrt = Gen_ArrCnst.SetCountCrt /\ Gen_ArrSqrt.RemoveBack = Gen_ArrCnst.RemoveBack /\
+  Gen_ArrSqrt.AddBackNogrowCrt = Gen_ArrCnst.AddBackNogrowCrt /\ Gen_ArrSqrt.pvGetItem = Gen_ArrCnst.pvGetItem.
 Proof. exact Arr_Proofs.same_code. Qed.
 Print Assumptions C16_arr_same_code.
 
@@ -368,3 +369,126 @@ Theorem C16_cnst_arr_AddBackCrt : forall L, 0 <= L <= 62 -> forall alloc segs n 
     Arr_Proofs.ginv (Gen_SegCnst.GetSegItemIndexes L) SegModel_Inst.maxi (SegModel_Inst.SCc L) n' (c + 1).
 Proof. exact Arr_Inst.cnst_AddBackCrt_refines. Qed.
 Print Assumptions C16_cnst_arr_AddBackCrt.
+
+(* ---- round 5: the remaining regenerated container functions ---- *)
+
+(* sqrt: pvDecCount (the segment-walking destruction loop) terminates, fails no assertion and leaves exactly `count` elements;
+   it returns no table: nothing is written, the segments themselves are released only by pvDecCapacity *)
+Theorem C16_sqrt_arr_pvDecCount : forall L, 0 <= L <= 62 -> forall segs n c count, 0 <= count <= c -> c < SegModel_Inst.maxi ->
+  Gen_ArrSqrt.pvDecCount (Gen_SegSqrt.GetSegItemIndexes L) (Gen_SegSqrt.GetItemCount L) segs n c count = Ok (tt, count).
+Proof. exact Arr_Inst.sqrt_pvDecCount_spec. Qed.
+Print Assumptions C16_sqrt_arr_pvDecCount.
+
+(* sqrt: RemoveBack(k), k <= count: the MOMO_CHECK holds, count - k elements remain, no table returned *)
+Theorem C16_sqrt_arr_RemoveBack : forall L, 0 <= L <= 62 -> forall segs n c k, 0 <= k <= c -> c < SegModel_Inst.maxi ->
+  Gen_ArrSqrt.RemoveBack (Gen_SegSqrt.GetSegItemIndexes L) (Gen_SegSqrt.GetItemCount L) segs n c k = Ok (tt, c - k).
+Proof. exact Arr_Inst.sqrt_RemoveBack_spec. Qed.
+Print Assumptions C16_sqrt_arr_RemoveBack.
+
+(* sqrt: Clear(shrink): count 0; shrink releases every segment (segment count 0), otherwise the table is kept *)
+Theorem C16_sqrt_arr_Clear : forall L, 0 <= L <= 62 -> forall segs n c shrink, Arr_Proofs.ginv (Gen_SegSqrt.GetSegItemIndexes L) SegModel_Inst.maxi (SegModel_Inst.SCq L) n c ->
+  Gen_ArrSqrt.Clear (Gen_SegSqrt.GetSegItemIndexes L) (Gen_SegSqrt.GetIndex L) (Gen_SegSqrt.GetItemCount L) segs n c shrink = Ok (tt, (if shrink then 0 else n), 0).
+Proof. exact Arr_Inst.sqrt_Clear_spec. Qed.
+Print Assumptions C16_sqrt_arr_Clear.
+
+(* sqrt: AddBackNogrowCrt with count < capacity: the MOMO_CHECK holds, only mCount changes, invariant kept *)
+Theorem C16_sqrt_arr_AddBackNogrowCrt : forall L, 0 <= L <= 62 -> forall segs n c, Arr_Proofs.ginv (Gen_SegSqrt.GetSegItemIndexes L) SegModel_Inst.maxi (SegModel_Inst.SCq L) n c ->
+  c + 1 < SegModel_Inst.maxi -> c < Gen_SegSqrt.GetIndex L n 0 ->
+  Gen_ArrSqrt.AddBackNogrowCrt (Gen_SegSqrt.GetSegItemIndexes L) segs n c = Ok (tt, c + 1) /\ Arr_Proofs.ginv (Gen_SegSqrt.GetSegItemIndexes L) SegModel_Inst.maxi (SegModel_Inst.SCq L) n (c + 1).
+Proof. exact Arr_Inst.sqrt_AddBackNogrowCrt_spec. Qed.
+Print Assumptions C16_sqrt_arr_AddBackNogrowCrt.
+
+(* sqrt: operator[] (pvGetItem) on the regenerated code: for index < count the MOMO_CHECK holds and the element's address is
+   mSegments[fst (GetSegItemIndexes index)] + snd (GetSegItemIndexes index); that segment is in the table, the offset inside it *)
+Theorem C16_sqrt_arr_pvGetItem : forall L, 0 <= L <= 62 -> forall segs n c i, Arr_Proofs.ginv (Gen_SegSqrt.GetSegItemIndexes L) SegModel_Inst.maxi (SegModel_Inst.SCq L) n c -> 0 <= i < c ->
+  Gen_ArrSqrt.pvGetItem (Gen_SegSqrt.GetSegItemIndexes L) segs n c i = Ok (segs (fst (Gen_SegSqrt.GetSegItemIndexes L i)) + snd (Gen_SegSqrt.GetSegItemIndexes L i)) /\
+  0 <= fst (Gen_SegSqrt.GetSegItemIndexes L i) < n /\
+  0 <= snd (Gen_SegSqrt.GetSegItemIndexes L i) < (Gen_SegSqrt.GetItemCount L) (fst (Gen_SegSqrt.GetSegItemIndexes L i)).
+Proof. exact Arr_Inst.sqrt_pvGetItem_spec. Qed.
+Print Assumptions C16_sqrt_arr_pvGetItem.
+
+(* sqrt: ADDRESS STABILITY on the regenerated code: if an operation leaves the table entries below the old segment count alone (the
+   frame condition proved for Reserve, AddBackCrt, pvIncCapacity, SetCountCrt; trivial for the functions returning no table), then
+   operator[] of every element that exists before and after returns the same address *)
+Theorem C16_sqrt_arr_getitem_stable : forall L, 0 <= L <= 62 -> forall segs n c segs' n' c' i, Arr_Proofs.ginv (Gen_SegSqrt.GetSegItemIndexes L) SegModel_Inst.maxi (SegModel_Inst.SCq L) n c -> Arr_Proofs.ginv (Gen_SegSqrt.GetSegItemIndexes L) SegModel_Inst.maxi (SegModel_Inst.SCq L) n' c' ->
+  (forall k, k < n -> segs' k = segs k) -> 0 <= i < c -> i < c' ->
+  Gen_ArrSqrt.pvGetItem (Gen_SegSqrt.GetSegItemIndexes L) segs' n' c' i = Gen_ArrSqrt.pvGetItem (Gen_SegSqrt.GetSegItemIndexes L) segs n c i.
+Proof. exact Arr_Inst.sqrt_getitem_stable. Qed.
+Print Assumptions C16_sqrt_arr_getitem_stable.
+
+(* cnst: pvDecCount (the segment-walking destruction loop) terminates, fails no assertion and leaves exactly `count` elements;
+   it returns no table: nothing is written, the segments themselves are released only by pvDecCapacity *)
+Theorem C16_cnst_arr_pvDecCount : forall L, 0 <= L <= 62 -> forall segs n c count, 0 <= count <= c -> c < SegModel_Inst.maxi ->
+  Gen_ArrCnst.pvDecCount (Gen_SegCnst.GetSegItemIndexes L) (fun _ : Z => Gen_SegCnst.GetItemCount L) segs n c count = Ok (tt, count).
+Proof. exact Arr_Inst.cnst_pvDecCount_spec. Qed.
+Print Assumptions C16_cnst_arr_pvDecCount.
+
+(* cnst: RemoveBack(k), k <= count: the MOMO_CHECK holds, count - k elements remain, no table returned *)
+Theorem C16_cnst_arr_RemoveBack : forall L, 0 <= L <= 62 -> forall segs n c k, 0 <= k <= c -> c < SegModel_Inst.maxi ->
+  Gen_ArrCnst.RemoveBack (Gen_SegCnst.GetSegItemIndexes L) (fun _ : Z => Gen_SegCnst.GetItemCount L) segs n c k = Ok (tt, c - k).
+Proof. exact Arr_Inst.cnst_RemoveBack_spec. Qed.
+Print Assumptions C16_cnst_arr_RemoveBack.
+
+(* cnst: Clear(shrink): count 0; shrink releases every segment (segment count 0), otherwise the table is kept *)
+Theorem C16_cnst_arr_Clear : forall L, 0 <= L <= 62 -> forall segs n c shrink, Arr_Proofs.ginv (Gen_SegCnst.GetSegItemIndexes L) SegModel_Inst.maxi (SegModel_Inst.SCc L) n c ->
+  Gen_ArrCnst.Clear (Gen_SegCnst.GetSegItemIndexes L) (Gen_SegCnst.GetIndex L) (fun _ : Z => Gen_SegCnst.GetItemCount L) segs n c shrink = Ok (tt, (if shrink then 0 else n), 0).
+Proof. exact Arr_Inst.cnst_Clear_spec. Qed.
+Print Assumptions C16_cnst_arr_Clear.
+
+(* cnst: AddBackNogrowCrt with count < capacity: the MOMO_CHECK holds, only mCount changes, invariant kept *)
+Theorem C16_cnst_arr_AddBackNogrowCrt : forall L, 0 <= L <= 62 -> forall segs n c, Arr_Proofs.ginv (Gen_SegCnst.GetSegItemIndexes L) SegModel_Inst.maxi (SegModel_Inst.SCc L) n c ->
+  c + 1 < SegModel_Inst.maxi -> c < Gen_SegCnst.GetIndex L n 0 ->
+  Gen_ArrCnst.AddBackNogrowCrt (Gen_SegCnst.GetSegItemIndexes L) segs n c = Ok (tt, c + 1) /\ Arr_Proofs.ginv (Gen_SegCnst.GetSegItemIndexes L) SegModel_Inst.maxi (SegModel_Inst.SCc L) n (c + 1).
+Proof. exact Arr_Inst.cnst_AddBackNogrowCrt_spec. Qed.
+Print Assumptions C16_cnst_arr_AddBackNogrowCrt.
+
+(* cnst: operator[] (pvGetItem) on the regenerated code: for index < count the MOMO_CHECK holds and the element's address is
+   mSegments[fst (GetSegItemIndexes index)] + snd (GetSegItemIndexes index); that segment is in the table, the offset inside it *)
+Theorem C16_cnst_arr_pvGetItem : forall L, 0 <= L <= 62 -> forall segs n c i, Arr_Proofs.ginv (Gen_SegCnst.GetSegItemIndexes L) SegModel_Inst.maxi (SegModel_Inst.SCc L) n c -> 0 <= i < c ->
+  Gen_ArrCnst.pvGetItem (Gen_SegCnst.GetSegItemIndexes L) segs n c i = Ok (segs (fst (Gen_SegCnst.GetSegItemIndexes L i)) + snd (Gen_SegCnst.GetSegItemIndexes L i)) /\
+  0 <= fst (Gen_SegCnst.GetSegItemIndexes L i) < n /\
+  0 <= snd (Gen_SegCnst.GetSegItemIndexes L i) < (fun _ : Z => Gen_SegCnst.GetItemCount L) (fst (Gen_SegCnst.GetSegItemIndexes L i)).
+Proof. exact Arr_Inst.cnst_pvGetItem_spec. Qed.
+Print Assumptions C16_cnst_arr_pvGetItem.
+
+(* cnst: ADDRESS STABILITY on the regenerated code: if an operation leaves the table entries below the old segment count alone (the
+   frame condition proved for Reserve, AddBackCrt, pvIncCapacity, SetCountCrt; trivial for the functions returning no table), then
+   operator[] of every element that exists before and after returns the same address *)
+Theorem C16_cnst_arr_getitem_stable : forall L, 0 <= L <= 62 -> forall segs n c segs' n' c' i, Arr_Proofs.ginv (Gen_SegCnst.GetSegItemIndexes L) SegModel_Inst.maxi (SegModel_Inst.SCc L) n c -> Arr_Proofs.ginv (Gen_SegCnst.GetSegItemIndexes L) SegModel_Inst.maxi (SegModel_Inst.SCc L) n' c' ->
+  (forall k, k < n -> segs' k = segs k) -> 0 <= i < c -> i < c' ->
+  Gen_ArrCnst.pvGetItem (Gen_SegCnst.GetSegItemIndexes L) segs' n' c' i = Gen_ArrCnst.pvGetItem (Gen_SegCnst.GetSegItemIndexes L) segs n c i.
+Proof. exact Arr_Inst.cnst_getitem_stable. Qed.
+Print Assumptions C16_cnst_arr_getitem_stable.
+
+(* sqrt: Shrink() = Shrink(mCount): never stuck, only truncation, the model's segment count, invariant kept *)
+Theorem C16_sqrt_arr_ShrinkFit : forall L, 0 <= L <= 62 -> forall segs n c,
+  Arr_Proofs.ginv (Gen_SegSqrt.GetSegItemIndexes L) SegModel_Inst.maxi (SegModel_Inst.SCq L) n c -> Gen_SegSqrt.GetIndex L n 0 < SegModel_Inst.maxi ->
+  exists n', Gen_ArrSqrt.ShrinkFit (Gen_SegSqrt.GetSegItemIndexes L) (Gen_SegSqrt.GetIndex L) segs n c = Ok (tt, n') /\ n' <= n /\
+    (exists st', SegModel.step (Gen_SegSqrt.GetSegItemIndexes L) (Gen_SegSqrt.GetIndex L) (Arr_Proofs.mst n c) SegModel.ShrinkFit = Some st' /\ n' = SegModel.len st') /\
+    Arr_Proofs.ginv (Gen_SegSqrt.GetSegItemIndexes L) SegModel_Inst.maxi (SegModel_Inst.SCq L) n' c.
+Proof. exact Arr_Inst.sqrt_ShrinkFit_refines. Qed.
+Print Assumptions C16_sqrt_arr_ShrinkFit.
+
+(* sqrt: SetCountCrt downwards: table untouched, exactly `count` elements *)
+Theorem C16_sqrt_arr_SetCountCrt_down : forall L, 0 <= L <= 62 -> forall alloc segs n c count, 0 <= count < c -> c < SegModel_Inst.maxi ->
+  Gen_ArrSqrt.SetCountCrt (Gen_SegSqrt.GetSegItemIndexes L) (Gen_SegSqrt.GetIndex L) (Gen_SegSqrt.GetItemCount L) alloc segs n c count = Ok (tt, segs, n, count).
+Proof. exact Arr_Inst.sqrt_SetCountCrt_down_spec. Qed.
+Print Assumptions C16_sqrt_arr_SetCountCrt_down.
+
+(* any sizing functions: SetCountCrt (incl. upwards through pvIncCount's nested construction loops), whenever it returns, has written no
+   table entry below the old segment count and has only appended segments.  PARTIAL: termination / absence of a failed assertion of the
+   construction loops of pvIncCount is not proved (it is exercised by corr:generated-container on every run) *)
+Theorem C16_arr_SetCountCrt_frame_partial : forall seg idx cnt alloc segs n c count segs' n' c',
+  0 <= n < 2 ^ 63 -> 0 <= fst (seg count) < 2 ^ 63 ->
+  Gen_ArrSqrt.SetCountCrt seg idx cnt alloc segs n c count = Ok (tt, segs', n', c') ->
+  (forall i, i < n -> segs' i = segs i) /\ n <= n'.
+Proof. exact Arr_Proofs.SetCountCrt_frame_partial. Qed.
+Print Assumptions C16_arr_SetCountCrt_frame_partial.
+
+(* the three MOMO_CHECKs of the regenerated code fail (assertion mode) exactly outside their domain *)
+Theorem C16_arr_checks_stuck : forall seg cnt segs n c x,
+  (n <= fst (seg c) -> Gen_ArrSqrt.AddBackNogrowCrt seg segs n c = Stuck) /\
+  (c <= x -> Gen_ArrSqrt.pvGetItem seg segs n c x = Stuck) /\
+  (c < x -> Gen_ArrSqrt.RemoveBack seg cnt segs n c x = Stuck).
+Proof. exact Arr_Proofs.checks_stuck. Qed.
+Print Assumptions C16_arr_checks_stuck.
